@@ -63,33 +63,50 @@ structure ModOut where
   div : Rat
 deriving Repr
 
+/-- the three figures, from the membership products:
+    `fit = (Mᵀ (A M)).diagonal().sum() / A.data.sum()`, `div = (Mᵀ probs_col)·(Mᵀ probs_row)`, `mod = fit − γ·div` -/
+def modTerms (n : Nat) (A : Nat → Nat → Rat) (labels : List Int) (pr pc : Nat → Rat) (γ : Rat) : ModOut :=
+  let k := (maxLabel labels + 1).toNat               -- number of columns of the membership matrix
+  let m := member labels
+  let w := sumTo n fun i => sumTo n (A i)              -- adjacency.data.sum()
+  let fit := (sumTo k fun c => sumTo n fun i => m i c * sumTo n fun j => A i j * m j c) / w
+  let div := sumTo k fun c => (sumTo n fun i => m i c * pc i) * (sumTo n fun i => m i c * pr i)
+  { mod := fit - γ * div, fit := fit, div := div }
+
+/-- the adjacency matrix `get_modularity` works on and its size (`get_adjacency` without options) -/
+def modAdj (nRow nCol : Nat) (B : Nat → Nat → Rat) : Nat × (Nat → Nat → Rat) :=
+  if nRow != nCol then (nRow + nCol, blockAdj nRow B) else (nRow, B)
+
+/-- the label vector `get_modularity` works on -/
+def modLabels (nRow nCol : Nat) (labels : List Int) (labelsCol : Option (List Int)) : Except PyErr (List Int) :=
+  if nRow != nCol then
+    (match labelsCol with
+     | none => .error .valueError
+     | some lc => .ok (labels ++ lc))
+  else .ok labels
+
 /-- `get_modularity(input_matrix, labels, labels_col, weights, resolution, return_all=True)`.
     `nRow nCol nnz B` describe `input_matrix`. -/
 def getModularity (nRow nCol nnz : Nat) (B : Nat → Nat → Rat) (labels : List Int)
-    (labelsCol : Option (List Int)) (weights : Weights) (γ : Rat) : Except PyErr ModOut := do
+    (labelsCol : Option (List Int)) (weights : Weights) (γ : Rat) : Except PyErr ModOut :=
   -- get_adjacency -> check_format
-  if nnz == 0 then throw .valueError
-  let bip := nRow != nCol
-  let n := if bip then nRow + nCol else nRow
-  let A : Nat → Nat → Rat := if bip then blockAdj nRow B else B
-  let labels ← if bip then
-      (match labelsCol with
-       | none => throw PyErr.valueError
-       | some lc => pure (labels ++ lc))
-    else pure labels
-  if labels.length != n then throw .valueError
-  let pr ← getProbs n weights A
-  let pc ← getProbs n weights (fun i j => A j i)
-  -- get_membership: shape (n, max(labels)+1); a negative number of columns is refused by scipy
-  let mx := maxLabel labels
-  if mx < -1 then throw .valueError
-  let k := (mx + 1).toNat
-  let m := member labels
-  let w := sumTo n fun i => sumTo n (A i)                  -- adjacency.data.sum()
-  let fitNum := sumTo k fun c => sumTo n fun i => m i c * sumTo n fun j => A i j * m j c
-  if w == 0 then throw .nonFinite
-  let fit := fitNum / w
-  let div := sumTo k fun c => (sumTo n fun i => m i c * pc i) * (sumTo n fun i => m i c * pr i)
-  pure { mod := fit - γ * div, fit := fit, div := div }
+  if nnz == 0 then .error .valueError else
+  let n := (modAdj nRow nCol B).1
+  let A := (modAdj nRow nCol B).2
+  match modLabels nRow nCol labels labelsCol with
+  | .error e => .error e
+  | .ok labels =>
+    if labels.length != n then .error .valueError else
+    match getProbs n weights A with
+    | .error e => .error e
+    | .ok pr =>
+      match getProbs n weights (fun i j => A j i) with
+      | .error e => .error e
+      | .ok pc =>
+        -- get_membership: shape (n, max(labels)+1); a negative number of columns is refused by scipy
+        if maxLabel labels < -1 then .error .valueError
+        -- numpy divides by `adjacency.data.sum()` without raising
+        else if (sumTo n fun i => sumTo n (A i)) == 0 then .error .nonFinite
+        else .ok (modTerms n A labels pr pc γ)
 
 end SkNet.Modularity
